@@ -105,6 +105,19 @@ probe_pair!(PaYes, PaNo, get_pa, F34<T>, [Alpha<B, T>: FromColorUnclamped<A>,], 
 probe_pair!(ApYes, ApNo, get_ap, F43<T>, [B: FromColorUnclamped<Alpha<A, T>>,], |v| {
     B::from_color_unclamped(Alpha { color: A::from3([v[0], v[1], v[2]]), alpha: v[3] }).to3()
 });
+/// buffer forms of an edge: `Vec<B>::from_color(Vec<A>)`, `Box<[B]>::from_color(Box<[A]>)` and the
+/// two unclamped forms, element values as `[T; 3]`
+pub type FBuf<T> = fn(&[[T; 3]]) -> [Vec<[T; 3]>; 4];
+probe_pair!(BufYes, BufNo, get_buf, FBuf<T>, [A: Clone, Vec<B>: FromColor<Vec<A>> + FromColorUnclamped<Vec<A>>, Box<[B]>: FromColor<Box<[A]>> + FromColorUnclamped<Box<[A]>>,], |v| {
+    let src: Vec<A> = v.iter().map(|x| A::from3(*x)).collect();
+    let out = |r: Vec<B>| -> Vec<[T; 3]> { r.into_iter().map(|b| b.to3()).collect() };
+    [
+        out(<Vec<B>>::from_color(src.clone())),
+        out(<Box<[B]>>::from_color(src.clone().into_boxed_slice()).into_vec()),
+        out(<Vec<B>>::from_color_unclamped(src.clone())),
+        out(<Box<[B]>>::from_color_unclamped(src.into_boxed_slice()).into_vec()),
+    ]
+});
 
 /// per-node probes (clamp, is_within_bounds)
 pub struct Probe1<A, T>(pub PhantomData<(A, T)>);
@@ -177,6 +190,7 @@ pub struct Graph<T: 'static> {
     pub nodes: Vec<NodeInfo>,
     pub unc: Vec<Vec<Option<F3<T>>>>,
     pub clamped: Vec<Vec<Option<F3<T>>>>,
+    pub buf: Vec<Vec<Option<FBuf<T>>>>,
     pub tryc: Vec<Vec<Option<FTry<T>>>>,
     pub aa: Vec<Vec<Option<F4<T>>>>,
     pub pa: Vec<Vec<Option<F34<T>>>>,
@@ -213,26 +227,27 @@ macro_rules! graph {
     ($fname:ident, $gname:literal, $T:ty, [ $( ($tag:literal, $ty:ty, $kind:expr) ),* $(,)? ]) => {
         pub fn $fname() -> $crate::Graph<$T> {
             #[allow(unused_imports)]
-            use $crate::{UncYes, UncNo, ClampedYes, ClampedNo, TryYes, TryNo, AaYes, AaNo, PaYes, PaNo, ApYes, ApNo, ClampYes, ClampNo, WaYes, WaNo};
+            use $crate::{UncYes, UncNo, ClampedYes, ClampedNo, TryYes, TryNo, AaYes, AaNo, PaYes, PaNo, ApYes, ApNo, ClampYes, ClampNo, WaYes, WaNo, BufYes, BufNo};
             let nodes = vec![$( $crate::NodeInfo { name: $tag, kind: $kind } ),*];
             let mut unc = vec![]; let mut clamped = vec![]; let mut tryc = vec![];
-            let mut aa = vec![]; let mut pa = vec![]; let mut ap = vec![];
-            $crate::graph!(@rows $T, unc, clamped, tryc, aa, pa, ap, [ $( $ty ),* ], [ $( $ty ),* ]);
+            let mut aa = vec![]; let mut pa = vec![]; let mut ap = vec![]; let mut buf = vec![];
+            $crate::graph!(@rows $T, unc, clamped, tryc, aa, pa, ap, buf, [ $( $ty ),* ], [ $( $ty ),* ]);
             let clamp = vec![ $( (&$crate::Probe1::<$ty, $T>(core::marker::PhantomData)).get_clamp() ),* ];
             let wa = vec![ $( (&$crate::Probe1::<$ty, $T>(core::marker::PhantomData)).get_wa() ),* ];
-            $crate::Graph { name: $gname, float: stringify!($T), nodes, unc, clamped, tryc, aa, pa, ap, clamp, wa }
+            $crate::Graph { name: $gname, float: stringify!($T), nodes, unc, clamped, tryc, aa, pa, ap, clamp, wa, buf }
         }
     };
-    (@rows $T:ty, $unc:ident, $clamped:ident, $tryc:ident, $aa:ident, $pa:ident, $ap:ident, [ $( $from:ty ),* ], $tos:tt) => {
-        $( $crate::graph!(@row $T, $unc, $clamped, $tryc, $aa, $pa, $ap, $from, $tos); )*
+    (@rows $T:ty, $unc:ident, $clamped:ident, $tryc:ident, $aa:ident, $pa:ident, $ap:ident, $buf:ident, [ $( $from:ty ),* ], $tos:tt) => {
+        $( $crate::graph!(@row $T, $unc, $clamped, $tryc, $aa, $pa, $ap, $buf, $from, $tos); )*
     };
-    (@row $T:ty, $unc:ident, $clamped:ident, $tryc:ident, $aa:ident, $pa:ident, $ap:ident, $from:ty, [ $( $to:ty ),* ]) => {
+    (@row $T:ty, $unc:ident, $clamped:ident, $tryc:ident, $aa:ident, $pa:ident, $ap:ident, $buf:ident, $from:ty, [ $( $to:ty ),* ]) => {
         $unc.push(vec![ $( (&$crate::Probe::<$from, $to, $T>(core::marker::PhantomData)).get_unc() ),* ]);
         $clamped.push(vec![ $( (&$crate::Probe::<$from, $to, $T>(core::marker::PhantomData)).get_clamped() ),* ]);
         $tryc.push(vec![ $( (&$crate::Probe::<$from, $to, $T>(core::marker::PhantomData)).get_try() ),* ]);
         $aa.push(vec![ $( (&$crate::Probe::<$from, $to, $T>(core::marker::PhantomData)).get_aa() ),* ]);
         $pa.push(vec![ $( (&$crate::Probe::<$from, $to, $T>(core::marker::PhantomData)).get_pa() ),* ]);
         $ap.push(vec![ $( (&$crate::Probe::<$from, $to, $T>(core::marker::PhantomData)).get_ap() ),* ]);
+        $buf.push(vec![ $( (&$crate::Probe::<$from, $to, $T>(core::marker::PhantomData)).get_buf() ),* ]);
     };
 }
 
